@@ -137,8 +137,88 @@ def make_registry(regs, overridden, validate):
             'matches': matches, 'overridden': overridden, 'validate': validate}
 
 
-def run_parser(data, mode, regs, overridden, validate, cuts=None, file_path=None):
+def run_parser(data, mode, regs, overridden, validate, cuts=None, file_path=None, retype=None):
     """Run an instrumented parser. mode: 'pull' | 'push'. Returns the observation dict."""
+    from edxml import EDXMLPullParser, EDXMLPushParser
+    from edxml.error import EDXMLValidationError, EDXMLEventValidationError, EDXMLOntologyValidationError
+    log, sizes, seen, state, content = [], [], set(), {'parent': None}, {}
+
+    def note(event):
+        idx = int(next(iter(event['p']))[1:]) if 'p' in event.get_properties() and event['p'] else \
+            int(next(iter(event['q']))[1:])
+        parent = event.getparent()
+        if idx not in seen:
+            seen.add(idx)
+            if 'p' in event.get_properties() and event['p']:
+                content[idx] = sorted(str(v) for v in event['q'])
+            sizes.append(parent.index(event) + 1 if parent is not None else -1)
+            state['parent'] = parent
+        return idx
+
+    base = EDXMLPullParser if mode == 'pull' else EDXMLPushParser
+
+    class P(base):
+        def _parsed_ontology(self, ontology):
+            super()._parsed_ontology(ontology)
+            log.append(['ont', sorted(ontology.get_event_type_names()), sorted(ontology.get_event_sources().keys())])
+
+        def _parsed_foreign_element(self, element):
+            log.append(['f', int(element.get('n')), elem_view(element)])
+            state['parent'] = element.getparent()
+
+    if overridden:
+        def _parsed_event(self, event):
+            log.append(['fb', note(event)])
+        P._parsed_event = _parsed_event
+
+    parser = P(validate=validate) if mode == 'pull' else P(validate=validate, foreign_element_tags=[FTAG])
+
+    def make_handler(hid):
+        def handler(event):
+            log.append(['h', hid, note(event)])
+            if retype and retype[0] == hid:
+                # a handler may edit the event it is given: this one files it under another event type
+                event.set_type(retype[1])
+        return handler
+    handlers = {}
+    for kind, keys, hid in regs:
+        h = handlers.setdefault(hid, make_handler(hid))
+        if kind == 'type':
+            parser.set_event_type_handler(keys, h)
+        else:
+            parser.set_event_source_handler(keys, h)
+    err = None
+    try:
+        if mode == 'pull':
+            parser.parse(file_path or io.BytesIO(data), foreign_element_tags=[FTAG])
+        else:
+            pos = 0
+            for c in list(cuts or []) + [len(data)]:
+                if c > pos:
+                    parser.feed(data[pos:c])
+                    pos = c
+            parser.close()
+    except EDXMLOntologyValidationError:
+        err = 'EDXMLOntologyValidationError'
+    except EDXMLEventValidationError:
+        err = 'EDXMLEventValidationError'
+    except EDXMLValidationError:
+        err = 'EDXMLValidationError'
+    except Exception as ex:  # noqa
+        err = 'foreign:' + type(ex).__name__
+    parent = state['parent']
+    return {
+        'log': log, 'err': err, 'nEvents': parser.get_event_counter(),
+        'typeCount': sorted([t, parser.get_event_type_counter(t)] for t in TYPES),
+        'sizes': sizes, 'children': len(parent) if parent is not None and err is None else None,
+        'content': sorted([i, v] for i, v in content.items()),
+    }
+
+
+def run_parser_reuse(datas, regs, overridden, validate):
+    """One instrumented pull parser given several documents one after the other (parse() again on the same object).
+    Returns one observation per document; the callback log is kept per document."""
+    mode, cuts, file_path = 'pull', None, None
     from edxml import EDXMLPullParser, EDXMLPushParser
     from edxml.error import EDXMLValidationError, EDXMLEventValidationError, EDXMLOntologyValidationError
     log, sizes, seen, state, content = [], [], set(), {'parent': None}, {}
@@ -184,32 +264,33 @@ def run_parser(data, mode, regs, overridden, validate, cuts=None, file_path=None
             parser.set_event_type_handler(keys, h)
         else:
             parser.set_event_source_handler(keys, h)
-    err = None
-    try:
-        if mode == 'pull':
-            parser.parse(file_path or io.BytesIO(data), foreign_element_tags=[FTAG])
-        else:
-            pos = 0
-            for c in list(cuts or []) + [len(data)]:
-                if c > pos:
-                    parser.feed(data[pos:c])
-                    pos = c
-            parser.close()
-    except EDXMLOntologyValidationError:
-        err = 'EDXMLOntologyValidationError'
-    except EDXMLEventValidationError:
-        err = 'EDXMLEventValidationError'
-    except EDXMLValidationError:
-        err = 'EDXMLValidationError'
-    except Exception as ex:  # noqa
-        err = 'foreign:' + type(ex).__name__
-    parent = state['parent']
-    return {
-        'log': log, 'err': err, 'nEvents': parser.get_event_counter(),
-        'typeCount': sorted([t, parser.get_event_type_counter(t)] for t in TYPES),
-        'sizes': sizes, 'children': len(parent) if parent is not None and err is None else None,
-        'content': sorted([i, v] for i, v in content.items()),
-    }
+    observations = []
+    for data in datas:
+        del log[:]
+        del sizes[:]
+        content.clear()
+        state['parent'] = None
+        err = None
+        try:
+            parser.parse(io.BytesIO(data), foreign_element_tags=[FTAG])
+        except EDXMLOntologyValidationError:
+            err = 'EDXMLOntologyValidationError'
+        except EDXMLEventValidationError:
+            err = 'EDXMLEventValidationError'
+        except EDXMLValidationError:
+            err = 'EDXMLValidationError'
+        except Exception as ex:  # noqa
+            err = 'foreign:' + type(ex).__name__
+        parent = state['parent']
+        observations.append({
+            'log': list(log), 'err': err, 'nEvents': parser.get_event_counter(),
+            'typeCount': sorted([t, parser.get_event_type_counter(t)] for t in TYPES),
+            'sizes': list(sizes), 'children': len(parent) if parent is not None and err is None else None,
+            'content': sorted([i, v] for i, v in content.items()),
+        })
+        if err is not None:
+            break
+    return observations
 
 
 def model_view(reply, items, with_children=True):
